@@ -9,6 +9,7 @@ import (
 	"os"
 	"strconv"
 	"sync"
+	"time"
 
 	"verif/checks/c37/scen"
 	"verif/lib/labnet"
@@ -47,6 +48,32 @@ func main() {
 			wg.Wait()
 			for _, m := range scen.CheckHeld(nd) {
 				fmt.Println("RACEPASS-HELD-BLOCK-MODIFIED", sc.Name+":", m)
+			}
+			// progress watchdog for the BlockWaiter goroutines: every call into the node has returned, so a waiter whose
+			// height is reached has been woken already and only needs to be scheduled
+			lost, early := scen.CheckWaiters(nd, scen.MaxHeight(), func(ch <-chan struct{}, mustFire bool) bool {
+				if !mustFire {
+					select {
+					case <-ch:
+						return true
+					default:
+						return false
+					}
+				}
+				select {
+				case <-ch:
+					return true
+				case <-time.After(30 * time.Second):
+					return false
+				}
+			})
+			for _, m := range append(lost, early...) {
+				fmt.Println("RACEPASS-WAITER", sc.Name+":", m)
+			}
+			if len(lost) > 0 {
+				// one report is enough; every further repetition would sit out the watchdog again
+				fmt.Println("RACEPASS-RUNS", runs)
+				os.Exit(0)
 			}
 			runs++
 		}
